@@ -162,6 +162,7 @@ func c06(c *core.Check) {
 	c06redirect(c)
 	c06quoteEscape(c)
 	c06containerElems(c)
+	c06numericIdentifier(c)
 	pkgIdentityByPath(c)
 	st := tmplEngine(c)
 	if st == nil {
